@@ -54,6 +54,7 @@ Inductive wop :=
 Inductive wstep := Ws (o : wop) (len : Z).      (* observed Len() after the call *)
 
 Inductive gop := Gop (tid : nat) (k id : N) (call ret : Z).
+Inductive eobs := Eobs (stored ttl cut : Z) (expired : bool).
 
 Inductive case :=
   (* NewUInt64Map(cap): observed len(data), growAt; history; final non-empty slots (index,key,value), final len(data) *)
@@ -88,7 +89,11 @@ Inductive case :=
   (* a concurrent history of LimiterStore.Get recorded on one NewLimiterStore(maxSize, _) (real
      goroutines) with at most max(maxSize,1) keys in play, so that nothing has to be evicted:
      thread, key, identity of the limiter returned, logical-clock stamps *)
-| CaseLimC (maxSize : Z) (ops : list gop).
+| CaseLimC (maxSize : Z) (ops : list gop)
+  (* CacheEntry.IsExpired observed on real entries: the clock (ns, relative to a base instant) was
+     read before ([lo]) and after ([hi]) the calls; per entry stored, ttl, cutUntil (0 = none; all
+     relative to the same base; a real cut is never exactly the base) and the result *)
+| CaseExp (lo hi : Z) (ents : list eobs).
 
 (* ------------------------------------------------------------- helpers *)
 Definition dig_p : N := 1099511628211%N.
@@ -391,6 +396,20 @@ Definition goc_spec (ms : Z) (ops : list gop) : bool :=
   forallb (fun a => forallb (fun b =>
      let '(Gop _ k1 i1 _ _) := a in let '(Gop _ k2 i2 _ _) := b in Bool.eqb (N.eqb k1 k2) (N.eqb i1 i2)) ops) ops.
 
+(* expiry: the model's verdict at both ends of the bracket; where they agree (expiry is monotone
+   in the clock, Proofs_wrap.expired_model_mono) the code must have said the same *)
+Definition exp_check (lo hi : Z) (e : eobs) : bool :=
+  let '(Eobs stored ttl cut b) := e in
+  let a := expired_model stored ttl cut lo in
+  let z := expired_model stored ttl cut hi in
+  if Bool.eqb a z then Bool.eqb a b else true.
+(* judged without the model: an entry whose ttl and cut both reach beyond [hi] is fresh, one
+   whose ttl or cut ended by [lo] has expired *)
+Definition exp_spec (lo hi : Z) (e : eobs) : bool :=
+  let '(Eobs stored ttl cut b) := e in
+  let ends := if Z.eqb cut 0 then (stored + ttl)%Z else Z.min (stored + ttl) cut in
+  if (ends <=? lo)%Z then b else if (hi <? ends)%Z then negb b else true.
+
 (* ------------------------------------------- check: expiring wrappers *)
 Definition exp_of (exp : list N) (v : N) : bool := lmem v exp.
 Definition wrap_apply (ex : N -> bool) (cap : Z) (m : segmap) (o : wop) : option segmap :=
@@ -446,6 +465,7 @@ Definition check_case (c : case) : bool :=
          Proofs_wrap.wrappers_linearize proves for every schedule of the interleaving model *)
       linearizable (map (wview_hop (exp_of exp)) ops)
   | CaseLimC ms ops => goc_check ms ops
+  | CaseExp lo hi ents => (lo <=? hi)%Z && forallb (exp_check lo hi) ents
   end.
 
 (* ------------------------------------------------------------- the spec *)
@@ -660,4 +680,5 @@ Definition spec_case (c : case) : bool :=
   | CaseWrap size exp steps => wrap_spec_run (exp_of exp) (snd (new_cache size)) [] steps
   | CaseWLin exp ops => lin_spec (map (wview_hop (exp_of exp)) ops)
   | CaseLimC ms ops => goc_spec ms ops
+  | CaseExp lo hi ents => forallb (exp_spec lo hi) ents
   end.
